@@ -100,6 +100,29 @@ func compareWithRef(c *run.Ctx, b []byte, family string) bool {
 		d["n_got"], d["n_want"] = len(ops), len(res.Ops)
 		return d
 	}
+	// metadata-only decoding is an entry point of the same decoder: it accepts
+	// exactly the streams whose magic and metadata section are valid, and
+	// returns the viewBox the full decode hands to Reset
+	{
+		var vb ivg.ViewBox
+		var verr error
+		if !c.Guard("DecodeViewBox", func() interface{} { return hx(b) }, func() { vb, verr = decode.DecodeViewBox(b) }) {
+			return false
+		}
+		metaValid := res.Err == nil || res.Err.Stage >= ref.StageInstr
+		if (verr == nil) != metaValid {
+			d := detail("DecodeViewBox and the reference disagree on the metadata section", -1).(map[string]interface{})
+			d["DecodeViewBox_error"] = errStr(verr)
+			c.Violate("metadata-only-decoding-accept-differs", d)
+			return false
+		}
+		if verr == nil && len(ops) > 0 && ops[0].K == rec.KReset && !(rec.SameBits(vb.MinX, ops[0].VB.MinX) && rec.SameBits(vb.MinY, ops[0].VB.MinY) && rec.SameBits(vb.MaxX, ops[0].VB.MaxX) && rec.SameBits(vb.MaxY, ops[0].VB.MaxY)) {
+			d := detail("DecodeViewBox returns another viewBox than Reset receives", 0).(map[string]interface{})
+			d["DecodeViewBox"] = fmt.Sprint(vb)
+			c.Violate("metadata-only-decoding-viewbox-differs", d)
+			return false
+		}
+	}
 	if (err == nil) != (res.Err == nil) {
 		if err == nil {
 			c.Violate("accepts-malformed", detail("decoder accepts, reference rejects", -1))
